@@ -74,3 +74,302 @@ Section First.
           unfold scal; simpl. unfold mult; simpl. ring.
   Qed.
 End First.
+
+Section First2.
+  Variable t0 : R.
+  Let J := JA_c04_Dual.
+
+  Lemma rep_scal b v x (c : R) : Rep1 t0 v x -> (b = B_div -> c <> 0) -> Rep1 t0 (fun t => eval_scal (T:=R) b (v t) c) (eval_scal b x c).
+  Proof.
+    intros [Hx Dx] Hc. destruct x as [x0 x1]; simpl in *. subst x0.
+    destruct b; simpl; (split; [rcbv; try reflexivity|]).
+    - eapply is_derive_val; [apply (is_derive_plus (V:=R_NormedModule) v (fun _ => c) t0 x1 0 Dx (is_derive_const (V:=R_NormedModule) c t0))|]. unfold plus, zero; simpl. rcbv. ring.
+    - eapply is_derive_val; [apply (is_derive_minus (V:=R_NormedModule) v (fun _ => c) t0 x1 0 Dx (is_derive_const (V:=R_NormedModule) c t0))|]. unfold minus, plus, opp, zero; simpl. rcbv. ring.
+    - eapply is_derive_val; [apply (is_derive_mult v (fun _ => c) t0 x1 0 Dx (is_derive_const (V:=R_NormedModule) c t0)); intros; apply Rmult_comm|]. rcbv. unfold plus, mult, zero; simpl. ring.
+    - assert (H : c <> 0) by (apply Hc; reflexivity).
+      eapply is_derive_val; [apply (is_derive_div v (fun _ => c) t0 x1 0 Dx (is_derive_const (V:=R_NormedModule) c t0) H)|]. rcbv. unfold minus, plus, opp, mult, scal, zero; simpl. unfold mult; simpl. field. assumption.
+  Qed.
+
+  Definition pw_ok (n : Z) (r : R) : Prop := (n = 0 \/ n = 1 \/ n = 2)%Z \/ (r <> 0 /\ (-2147483645 <= n <= 2147483647)%Z).
+
+  Lemma powi_tower_any n r : pw_ok n r -> is_tower (g_powi n) (tw3 (fun d => m_powi d n)) r.
+  Proof.
+    intros [ [ -> | [ -> | -> ] ] | [Hr Hn] ]; [apply tower_powi_0|apply tower_powi_1|apply tower_powi_2|apply tower_powi; assumption].
+  Qed.
+  Lemma pw_ok_open n r : pw_ok n r -> locally r (pw_ok n).
+  Proof.
+    intros [H|[Hr Hn]].
+    - exists (mkposreal 1 Rlt_0_1). intros y _. left; exact H.
+    - pose proof (open_neq 0 r Hr) as [e He]. exists e. intros y Hy. right; split; [apply He; exact Hy|exact Hn].
+  Qed.
+  Lemma powi_derive n r : pw_ok n r -> is_derive (g_powi n) r (tw3 (fun d => m_powi d n) r 1).
+  Proof.
+    intros H. pose proof (powi_tower_any n r H) as [_ [D _]].
+    apply (is_derive_ext_loc (fun t => tw3 (fun d => m_powi d n) t 0)); [|exact D].
+    apply (filter_imp (pw_ok n)); [|apply pw_ok_open; assumption]. intros y Hy. apply (powi_tower_any n y Hy).
+  Qed.
+
+  Lemma rep_powi n v x : Rep1 t0 v x -> pw_ok n (v t0) -> Rep1 t0 (fun t => m_powi (v t : R) n) (m_powi x n).
+  Proof.
+    intros [Hx Dx] Hp. destruct x as [x0 x1]; simpl in Hx, Dx; subst x0.
+    pose proof (jf_powi _ _ _ _ _ J n (mkDual (v t0) x1) I I nil fam_Dual_nil) as E0.
+    pose proof (jf_powi _ _ _ _ _ J n (mkDual (v t0) x1) I I (tt :: nil) fam_Dual_tt) as E1.
+    pose proof (dual_parts (m_powi (mkDual (v t0) x1) n)) as [Q0 Q1].
+    rewrite Q0, faa_nil in E0. rewrite Q1, faa_one in E1. change (part_Dual {| Dual_f_re := v t0; Dual_f_eps := x1 |} nil) with (v t0) in E0, E1.
+    change (part_Dual {| Dual_f_re := v t0; Dual_f_eps := x1 |} (tt :: nil)) with x1 in E1.
+    split.
+    - rewrite E0. apply (powi_tower_any n (v t0) Hp).
+    - rewrite E1. eapply is_derive_val; [apply (is_derive_comp (g_powi n) v t0 _ x1 (powi_derive n (v t0) Hp) Dx)|].
+      unfold scal; simpl. unfold mult; simpl. ring.
+  Qed.
+
+  (* ---- the theorem: programs ---- *)
+  Fixpoint okR (env : list R) (p : prog) : Prop :=
+    match p with
+    | PVar i => (i < length env)%nat
+    | PConst _ => True
+    | PUn u a => okR env a /\ dom_un u (eval (T:=R) env a)
+    | PBin b a c => okR env a /\ okR env c /\ (b = B_div -> eval (T:=R) env c <> 0)
+    | PScal b a c => okR env a /\ (b = B_div -> IZR c <> 0)
+    | PPowi a n => okR env a /\ pw_ok n (eval (T:=R) env a)
+    | PLet a body => okR env a /\ okR (env ++ (eval (T:=R) env a :: nil)) body
+    end.
+
+  Definition at_t (envV : list (R -> R)) (t : R) : list R := map (fun v => v t) envV.
+
+  Theorem first_order p : forall (envV : list (R -> R)) (envD : list (Dual R)),
+    Forall2 (Rep1 t0) envV envD -> okR (at_t envV t0) p ->
+    Rep1 t0 (fun t => eval (T:=R) (at_t envV t) p) (eval envD p).
+  Proof.
+    induction p as [i|c|u a IH|b a IHa c IHc|b a IH c|a IH n|a IHa body IHb]; intros envV envD HE Hok; simpl in *.
+    - unfold at_t in Hok; rewrite map_length in Hok. revert i Hok. induction HE as [|x y ex ey Hxy HE' IHE]; intros i Hi; simpl in *; [lia|].
+      destruct i; [destruct Hxy as [A B]; split; [exact A|]; apply (is_derive_ext x); [reflexivity|exact B]|]. apply IHE. lia.
+    - apply rep_const.
+    - destruct Hok as [Ha Hd]. apply (rep_un t0 u (fun t => eval (T:=R) (at_t envV t) a)); [apply IH; assumption|exact Hd].
+    - destruct Hok as [Ha [Hc Hd]]. apply (rep_bin t0 b (fun t => eval (T:=R) (at_t envV t) a) (fun t => eval (T:=R) (at_t envV t) c)); [apply IHa|apply IHc|]; assumption.
+    - destruct Hok as [Ha Hc]. apply (rep_scal b (fun t => eval (T:=R) (at_t envV t) a)); [apply IH; assumption|exact Hc].
+    - destruct Hok as [Ha Hp]. apply (rep_powi n (fun t => eval (T:=R) (at_t envV t) a)); [apply IH; assumption|exact Hp].
+    - destruct Hok as [Ha Hb].
+      pose proof (IHa envV envD HE Ha) as Ra.
+      assert (HE' : Forall2 (Rep1 t0) (envV ++ ((fun t => eval (T:=R) (at_t envV t) a) :: nil)) (envD ++ (eval envD a :: nil))).
+      { apply Forall2_app; [assumption|]. constructor; [exact Ra|constructor]. }
+      assert (Hm : forall t, at_t (envV ++ ((fun t => eval (T:=R) (at_t envV t) a) :: nil)) t = at_t envV t ++ (eval (T:=R) (at_t envV t) a :: nil)).
+      { intros t. unfold at_t. rewrite map_app. reflexivity. }
+      specialize (IHb _ _ HE'). rewrite Hm in IHb. specialize (IHb Hb). destruct IHb as [A B]. split.
+      + rewrite A, Hm. reflexivity.
+      + eapply is_derive_ext; [|exact B]. intros t; simpl. rewrite Hm. reflexivity.
+  Qed.
+End First2.
+
+(* ---- the reals themselves as the order-0 jet algebra: the real part of any evaluation is the real evaluation ---- *)
+Definition part_R (r : R) (S : @block unit) : R := match S with nil => r | _ => 0 end.
+Definition fam_R (S : @block unit) : Prop := S = nil.
+Definition pw_range (n : Z) : Prop := (-2147483645 <= n <= 2147483647)%Z.
+
+Lemma powerRZ_0_l n : n <> 0%Z -> powerRZ 0 n = 0.
+Proof.
+  intros H. destruct n as [|p|p]; [congruence| |]; simpl.
+  - apply pow_i. apply Pos2Nat.is_pos.
+  - rewrite pow_i by apply Pos2Nat.is_pos. apply Rinv_0.
+Qed.
+Lemma powi_re_any n x : pw_range n -> tw3 (fun d => m_powi d n) x 0 = powerRZ x n.
+Proof.
+  intros Hn. destruct (Req_dec x 0) as [->|Hx]; [|apply (tower_powi n x Hx Hn)].
+  destruct (Z.eq_dec n 0) as [->|H0]; [apply (tower_powi_0 0)|].
+  destruct (Z.eq_dec n 1) as [->|H1]; [apply (tower_powi_1 0)|].
+  destruct (Z.eq_dec n 2) as [->|H2]; [apply (tower_powi_2 0)|].
+  rewrite powerRZ_0_l by assumption. unfold pw_range in Hn.
+  assert (E : tw3 (fun d => m_powi d n) 0 0 = pz (n - 3) 0 * 0 * 0 * 0).
+  { destruct n as [|[[p|p|]|[p|p|]|]|p]; try (exfalso; lia); rcbvZ; rewrite ?wrap32_small by lia; reflexivity. }
+  rewrite E. ring.
+Qed.
+
+Lemma JA_R : JetAlgF DN_R part_R (fun _ => True) fam_R pw_range.
+Proof.
+  constructor.
+  - reflexivity.
+  - intros S B -> H. inversion H; reflexivity.
+  - intros S ->; simpl; lia.
+  - intros a b _ _ S ->. unfold leibniz; simpl. rcbv. ring.
+  - intros a b _ _ Hb S ->. unfold leibniz; simpl. simpl in Hb. rcbv. field. assumption.
+  - intros a b S ->. simpl. rcbv. repeat split; ring.
+  - intros u x Hu _ Hd S ->. rewrite faa_nil. change (eval_un u x = tw_un u x 0). change (dom_un u x) in Hd. rewrite (eval_un_R u x Hd). destruct u; try reflexivity; exfalso; apply Hu; reflexivity.
+  - intros n x Hn _ S ->. rewrite faa_nil. simpl. symmetry. apply powi_re_any. assumption.
+  - intros c S ->. reflexivity.
+  - intros b x c S Hc ->. destruct b; reflexivity.
+  - intros; exact I.
+  - intros; exact I.
+  - intros; exact I.
+  - intros; exact I.
+  - intros; exact I.
+Qed.
+
+Lemma Forall2_len {A B} (P : A -> B -> Prop) l l' : List.Forall2 P l l' -> length l = length l'.
+Proof. induction 1; simpl; congruence. Qed.
+Fixpoint exps (P : Z -> Prop) (p : prog) : Prop :=
+  match p with
+  | PVar _ | PConst _ => True
+  | PUn _ a | PScal _ a _ => exps P a
+  | PBin _ a c | PLet a c => exps P a /\ exps P c
+  | PPowi a n => exps P a /\ P n
+  end.
+Lemma pw_ok_range n r : pw_ok n r -> pw_range n.
+Proof. unfold pw_range; intros [ [ -> | [ -> | -> ] ] | [_ H] ]; lia. Qed.
+
+(* the domain conditions of a program are conditions on the real function alone: for every number type, they transfer to its evaluation, whose real
+   part is the real evaluation *)
+Section ReEval.
+  Context {L X : Type} {dn : DN R X} {part : X -> @block L -> R} {wf : X -> Prop} {fam : @block L -> Prop} {pw : Z -> Prop}.
+  Variable JX : JetAlgF dn part wf fam pw.
+  Hypothesis F0 : fam nil.
+  Variable f : unit -> L.
+  Let fam_f : forall S, fam_R S -> fam (map f S).
+  Proof. intros S ->. exact F0. Qed.
+  Definition relR (x : X) (r : R) : Prop := rel (partX:=part) (wfX:=wf) (partY:=part_R) (wfY:=fun _ => True) (famY:=fam_R) f x r.
+  Lemma relR_re x r : relR x r -> part x nil = r.
+  Proof. intros [_ [_ H]]. symmetry. apply (H nil eq_refl). Qed.
+  Lemma relR_intro x : wf x -> relR x (part x nil).
+  Proof. intros W. split; [exact W|]. split; [exact I|]. intros S ->. reflexivity. Qed.
+
+  Lemma re_eval (Q : Z -> Prop) p : forall envX envR, Forall2 relR envX envR -> okR envR p -> exps (fun n => pw n /\ Q n) p ->
+    ok (pwX:=pw) (pwY:=Q) (partX:=part) envX p /\ relR (eval envX p) (eval envR p).
+  Proof.
+    induction p as [i|c|u a IH|b a IHa c IHc|b a IH c|a IH n|a IHa body IHb]; intros envX envR HE Hok Hex; simpl in Hok, Hex.
+    - split; [simpl; rewrite (Forall2_len _ _ _ HE); exact Hok|]. apply (prog_agree JX JA_R f fam_f (PVar i) envX envR HE). simpl. rewrite (Forall2_len _ _ _ HE); exact Hok.
+    - split; [exact I|]. apply (prog_agree JX JA_R f fam_f (PConst c) envX envR HE). exact I.
+    - destruct Hok as [Ha Hd]. destruct (IH _ _ HE Ha Hex) as [Oa Ra].
+      assert (Hd' : dom_un u (part (eval envX a) nil)) by (rewrite (relR_re _ _ Ra); exact Hd).
+      split; [simpl; split; assumption|]. simpl. apply (rel_un JX JA_R f fam_f u _ _ Ra Hd').
+    - destruct Hok as [Ha [Hc Hd]]. destruct Hex as [Ea Ec]. destruct (IHa _ _ HE Ha Ea) as [Oa Ra]. destruct (IHc _ _ HE Hc Ec) as [Oc Rc].
+      assert (Hd' : b = B_div -> part (eval envX c) nil <> 0) by (rewrite (relR_re _ _ Rc); exact Hd).
+      split; [simpl; repeat split; assumption|]. simpl. apply (rel_bin JX JA_R f fam_f b _ _ _ _ Ra Rc Hd').
+    - destruct Hok as [Ha Hc]. destruct (IH _ _ HE Ha Hex) as [Oa Ra].
+      split; [simpl; split; assumption|]. simpl.
+      assert (EX : @castZ R (@fl_castZ R (@flF_prog R X dn)) c = IZR c) by (unfold flF_prog; rewrite (jf_fl _ _ _ _ _ JX); reflexivity).
+      rewrite EX. apply (rel_scal JX JA_R f fam_f b _ _ (IZR c) Ra Hc).
+    - destruct Hok as [Ha Hp]. destruct Hex as [Ea [P1 P2]]. destruct (IH _ _ HE Ha Ea) as [Oa Ra].
+      split; [simpl; repeat split; assumption|]. simpl. apply (rel_powi JX JA_R f fam_f n _ _ P1 (pw_ok_range _ _ Hp) Ra).
+    - destruct Hok as [Ha Hb]. destruct Hex as [Ea Eb]. destruct (IHa _ _ HE Ha Ea) as [Oa Ra].
+      assert (HE' : Forall2 relR (envX ++ (eval envX a :: nil)) (envR ++ (eval envR a :: nil))) by (apply Forall2_app; [assumption|constructor; [exact Ra|constructor]]).
+      destruct (IHb _ _ HE' Hb Eb) as [Ob Rb]. split; [simpl; split; assumption|exact Rb].
+  Qed.
+End ReEval.
+
+(* ---- every first-order part of every type is a directional derivative ---- *)
+Section Directional.
+  Context {L X : Type} {dn : DN R X} {part : X -> @block L -> R} {wf : X -> Prop} {fam : @block L -> Prop} {pw : Z -> Prop}.
+  Variable JX : JetAlgF dn part wf fam pw.
+  Variable l : L.
+  Hypothesis Fl : fam (l :: nil).
+  Variable t0 : R.
+  Let f : unit -> L := fun _ => l.
+  Let F0 : fam nil.
+  Proof. apply (jf_sub _ _ _ _ _ JX (l :: nil) nil Fl). apply subl_nil_l. Qed.
+  Let fam_f : forall S, fam_c04_Dual S -> fam (map f S).
+  Proof. intros S F. unfold fam_c04_Dual in F. in_cases F; simpl; assumption. Qed.
+
+  (* x carries the value and the derivative, in direction l, of the curve v at t0 *)
+  Definition RepX (v : R -> R) (x : X) : Prop := wf x /\ part x nil = v t0 /\ is_derive v t0 (part x (l :: nil)).
+
+  Theorem directional p : forall (envV : list (R -> R)) (envX : list X),
+    Forall2 RepX envV envX -> okR (at_t envV t0) p -> exps pw p ->
+    RepX (fun t => eval (T:=R) (at_t envV t) p) (eval envX p).
+  Proof.
+    intros envV envX HE Hok Hex.
+    set (envD := map (fun x => mkDual (part x nil) (part x (l :: nil))) envX).
+    assert (HR : Forall2 (relR (part:=part) (wf:=wf) f) envX (at_t envV t0)).
+    { unfold at_t. clear Hok. induction HE as [|v x ev ex [W [A B]] HE' IHE]; simpl; constructor; [|exact IHE].
+      rewrite <- A. apply relR_intro. exact W. }
+    assert (Hex' : exps (fun n => pw n /\ True) p).
+    { clear -Hex. induction p; simpl in *; tauto. }
+    destruct (re_eval JX F0 f (fun _ => True) p envX (at_t envV t0) HR Hok Hex') as [Ook Rre].
+    assert (HD : Forall2 (rel (partX:=part) (wfX:=wf) (partY:=part_Dual) (wfY:=fun _ => True) (famY:=fam_c04_Dual) f) envX envD).
+    { unfold envD. clear -HE. induction HE as [|v x ev ex [W [A B]] HE' IHE]; simpl; constructor; [|exact IHE].
+      split; [exact W|]. split; [exact I|]. intros S F. unfold fam_c04_Dual in F. in_cases F; reflexivity. }
+    pose proof (prog_agree JX JA_c04_Dual f fam_f p envX envD HD Ook) as [Wr [_ Hp]].
+    assert (H1 : Forall2 (Rep1 t0) envV envD).
+    { unfold envD. clear -HE. induction HE as [|v x ev ex [W [A B]] HE' IHE]; simpl; constructor; [|exact IHE]. split; [exact A|exact B]. }
+    destruct (first_order t0 p envV envD H1 Hok) as [A B].
+    pose proof (dual_parts (eval envD p)) as [Q0 Q1].
+    split; [exact Wr|]. split.
+    - rewrite <- A, <- Q0. symmetry. apply (Hp nil fam_Dual_nil).
+    - rewrite <- Q1 in B. rewrite (Hp (tt :: nil) fam_Dual_tt) in B. exact B.
+  Qed.
+End Directional.
+
+(* the scalar driver on a program: (f x, f' x) *)
+Corollary first_derivative_program p x : okR (x :: nil) p ->
+  let d := eval (mkDual x 1 :: nil) p in Dual_f_re d = eval (T:=R) (x :: nil) p /\ is_derive (fun t => eval (T:=R) (t :: nil) p) x (Dual_f_eps d).
+Proof.
+  intros Hok. assert (HE : Forall2 (Rep1 x) ((fun t => t) :: nil) (mkDual x 1 :: nil)).
+  { constructor; [|constructor]. split; [reflexivity|]. simpl. apply (is_derive_id (K:=R_AbsRing) x). }
+  exact (first_order x p _ _ HE Hok).
+Qed.
+
+(* ---- instances of the directional theorem ---- *)
+Lemma directional_HyperDual k : (k = 1 \/ k = 2)%nat -> forall t0 p envV (envX : list (HyperDual R)),
+  Forall2 (RepX (part:=part_HyperDual) (wf:=fun _ => True) k t0) envV envX -> okR (at_t envV t0) p -> exps (fun _ => True) p ->
+  RepX (part:=part_HyperDual) (wf:=fun _ => True) k t0 (fun t => eval (T:=R) (at_t envV t) p) (eval envX p).
+Proof. intros Hk t0. apply (directional JA_c04_HyperDual k). unfold fam_c04_HyperDual. destruct Hk as [ -> | -> ]; simpl; auto 8. Qed.
+Lemma directional_HHD k : (k = 1 \/ k = 2 \/ k = 3)%nat -> forall t0 p envV (envX : list (HyperHyperDual R)),
+  Forall2 (RepX (part:=part_HHD) (wf:=fun _ => True) k t0) envV envX -> okR (at_t envV t0) p -> exps (fun _ => True) p ->
+  RepX (part:=part_HHD) (wf:=fun _ => True) k t0 (fun t => eval (T:=R) (at_t envV t) p) (eval envX p).
+Proof. intros Hk t0. apply (directional JA_c04_HyperHyperDual k). unfold fam_c04_HyperHyperDual. destruct Hk as [ -> | [ -> | -> ] ]; simpl; auto 12. Qed.
+Lemma directional_DualVec (i : nat) : forall t0 p envV (envX : list (DualVec R)),
+  Forall2 (RepX (part:=part_DualVec) (wf:=fun _ => True) i t0) envV envX -> okR (at_t envV t0) p -> exps (fun _ => True) p ->
+  RepX (part:=part_DualVec) (wf:=fun _ => True) i t0 (fun t => eval (T:=R) (at_t envV t) p) (eval envX p).
+Proof. intros t0. apply (directional JA_c04_DualVec i). exists i. simpl; auto. Qed.
+Lemma directional_Dual2Vec (i : nat) : forall t0 p envV (envX : list (Dual2Vec R)),
+  Forall2 (RepX (part:=part_Dual2Vec) (wf:=wf_Dual2Vec) i t0) envV envX -> okR (at_t envV t0) p -> exps (fun _ => True) p ->
+  RepX (part:=part_Dual2Vec) (wf:=wf_Dual2Vec) i t0 (fun t => eval (T:=R) (at_t envV t) p) (eval envX p).
+Proof. intros t0. apply (directional JA_c04_Dual2Vec i). exists i, i. simpl; auto. Qed.
+Lemma directional_HyperDualVec (l : nat + nat) : forall t0 p envV (envX : list (HyperDualVec R)),
+  Forall2 (RepX (part:=part_HyperDualVec) (wf:=wf_HyperDualVec) l t0) envV envX -> okR (at_t envV t0) p -> exps (fun _ => True) p ->
+  RepX (part:=part_HyperDualVec) (wf:=wf_HyperDualVec) l t0 (fun t => eval (T:=R) (at_t envV t) p) (eval envX p).
+Proof. intros t0. apply (directional JA_c04_HyperDualVec l). destruct l as [i|j]; [exists i, 0%nat | exists 0%nat, j]; simpl; auto. Qed.
+From ND Require Import C04_nested.
+Lemma directional_DD k : (k = 1 \/ k = 2)%nat -> forall t0 p envV (envX : list (Dual (Dual R))),
+  Forall2 (RepX (part:=part_DD) (wf:=fun _ => True) k t0) envV envX -> okR (at_t envV t0) p -> exps pw_nested p ->
+  RepX (part:=part_DD) (wf:=fun _ => True) k t0 (fun t => eval (T:=R) (at_t envV t) p) (eval envX p).
+Proof. intros Hk t0. apply (directional JA_c04_DD k). unfold fam_c04_HyperDual. destruct Hk as [ -> | -> ]; simpl; auto 8. Qed.
+Lemma directional_DDD k : (k = 1 \/ k = 2 \/ k = 3)%nat -> forall t0 p envV (envX : list (Dual (Dual (Dual R)))),
+  Forall2 (RepX (part:=part_DDD) (wf:=fun _ => True) k t0) envV envX -> okR (at_t envV t0) p -> exps pw_nested p ->
+  RepX (part:=part_DDD) (wf:=fun _ => True) k t0 (fun t => eval (T:=R) (at_t envV t) p) (eval envX p).
+Proof. intros Hk t0. apply (directional JA_c04_DDD k). unfold fam_c04_HyperHyperDual. destruct Hk as [ -> | [ -> | -> ] ]; simpl; auto 12. Qed.
+
+Lemma example_ok :
+  let p := PBin B_div (PUn U_exp (PVar 0)) (PScal B_add (PBin B_mul (PVar 0) (PVar 1)) 3) in
+  okR (at_t ((fun t => t) :: (fun _ => 2) :: nil) 1) p /\ Forall2 (Rep1 1) ((fun t => t) :: (fun _ => 2) :: nil) (mkDual 1 1 :: mkDual 2 0 :: nil).
+Proof.
+  split.
+  - simpl. repeat split; try lia; try discriminate. intros _. rcbv. lra.
+  - constructor; [|constructor; [|constructor]]; (split; [reflexivity|]); simpl.
+    + apply (is_derive_id (K:=R_AbsRing) 1).
+    + apply (is_derive_const (V:=R_NormedModule) 2 1).
+Qed.
+
+(* ---- agreement of two types on a program, with the domain condition stated on the real function ---- *)
+Lemma exps_imp (P Q : Z -> Prop) p : (forall n, P n -> Q n) -> exps P p -> exps Q p.
+Proof. intros H. induction p; simpl; intuition. Qed.
+Lemma exps_true p : exps (fun _ => True) p.
+Proof. induction p; simpl; auto. Qed.
+Section AgreeR.
+  Context {LX LY X Y : Type} {dnX : DN R X} {dnY : DN R Y}.
+  Context {partX : X -> @block LX -> R} {wfX : X -> Prop} {famX : @block LX -> Prop}.
+  Context {partY : Y -> @block LY -> R} {wfY : Y -> Prop} {famY : @block LY -> Prop}.
+  Context {pwX pwY : Z -> Prop} (JX : JetAlgF dnX partX wfX famX pwX) (JY : JetAlgF dnY partY wfY famY pwY).
+  Variable f : LY -> LX.
+  Hypothesis fam_f : forall S, famY S -> famX (map f S).
+  Hypothesis F0 : famX nil.
+  Variable l0 : LX.
+  Theorem prog_agree_R p envX envY : Forall2 (rel (partX:=partX) (wfX:=wfX) (partY:=partY) (wfY:=wfY) (famY:=famY) f) envX envY ->
+    okR (map (fun x => partX x nil) envX) p -> exps (fun n => pwX n /\ pwY n) p ->
+    rel (partX:=partX) (wfX:=wfX) (partY:=partY) (wfY:=wfY) (famY:=famY) f (eval envX p) (eval envY p).
+  Proof.
+    intros HE Hok Hex.
+    assert (HR : Forall2 (relR (part:=partX) (wf:=wfX) (fun _ : unit => l0)) envX (map (fun x => partX x nil) envX)).
+    { clear -HE. induction HE as [|x y ex ey [W _] HE' IHE]; simpl; constructor; [|exact IHE]. apply relR_intro. exact W. }
+    destruct (re_eval JX F0 (fun _ => l0) pwY p envX _ HR Hok Hex) as [Ook _].
+    exact (prog_agree JX JY f fam_f p envX envY HE Ook).
+  Qed.
+End AgreeR.
